@@ -610,6 +610,10 @@ def check_c20(tier, seed, tmp, t0):
     npk, per, maxt = CORPUS[tier]
     base, basemod, n1 = build_l2(tmp, False, tier, seed, name="base", genmode="base", corpus=(max(2, npk // 2), per, maxt), stale=True)
     mbase, _, n2 = build_l2(tmp, False, tier, seed + 1, name="mbase", genmode="base", kind="modifier", corpus=(max(2, npk // 2), per, maxt), stale=True)
+    for b in ("base", "mbase"):
+        if DROPPED.get(b):
+            # the reference build itself lost programs: nothing to compare against
+            raise Infra(DROPPED[b])
     replaydir = os.path.join(OUT, "replays")
     os.makedirs(replaydir, exist_ok=True)
     build_viol = []
@@ -617,6 +621,10 @@ def check_c20(tier, seed, tmp, t0):
     for tag, gm, kind, sd in (("smap", "source-map", "mixed", seed), ("mod", "modifier", "modifier", seed + 1)):
         try:
             b, bmod, _ = build_l2(tmp, False, tier, sd, name="m" + tag, genmode=gm, kind=kind, corpus=(max(2, npk // 2), per, maxt), stale=True)
+            if DROPPED.get("m" + tag):
+                # programs that build in base mode were rejected, or their output does not compile, in this mode
+                # (and the two corpora no longer line up run by run)
+                raise Infra(DROPPED.pop("m" + tag))
             if tag == "smap":
                 smap = b
                 # the textual clause: source-map output is base output up to comments and line directives
